@@ -599,6 +599,19 @@ func V2SFChain() Action {
 		if !bc.V2OK() || bc.H >= w.Net.HardforkV2.EphemeralOutputHeight {
 			return false
 		}
+		// the claim start stated for the in-block parent below is the pool at the START of the block; that is the honest
+		// value only if nothing earlier in this block pays into the pool (below the ephemeral-output height the
+		// stated value is not checked, so a stale one would be a dishonest action)
+		for _, t := range bc.V1 {
+			if len(t.FileContracts) > 0 {
+				return false
+			}
+		}
+		for _, t := range bc.V2 {
+			if len(t.FileContracts) > 0 || len(t.FileContractResolutions) > 0 {
+				return false
+			}
+		}
 		p, ok := bc.PickSF(func(c int) bool { return c == AddrV1 || c == AddrV2 || c == AddrV1b })
 		if !ok {
 			return false
